@@ -26,6 +26,14 @@ pub fn check(case: &Case, rec: &mut Rec) -> Option<Failure> {
                 Some(o) => (o, r.step(None, Some(b))),
                 None => return fail(case, "panic", format!("panic at step {}", i)),
             },
+            Op::Reset => {
+                if !rec.reset(id) {
+                    return fail(case, "panic", format!("reset panicked at op {}", i));
+                }
+                r = Ref::new(&case.ind, &case.ps);
+                t = 0;
+                continue;
+            }
             _ => continue,
         };
         t += 1;
@@ -60,6 +68,11 @@ pub fn generate(r: &mut Runner) {
         let ind = INDS[i % INDS.len()];
         let mut c = super::c03::gen_case(r, "C07", ind, if i % 3 == 0 { 3 } else { 256 }, maxlen);
         c.kind = format!("range-{}", c.kind);
+        if i % 4 == 1 && c.ops.len() > 3 {
+            let at = r.rng.range(1, c.ops.len() - 1);
+            c.ops.insert(at, Op::Reset);
+            c.kind = format!("{}-with-reset", c.kind);
+        }
         let maxp = c.ps.iter().copied().max().unwrap_or(1);
         let nt = c.ops.len() > maxp + 1;
         r.run(c, nt);
